@@ -11,7 +11,7 @@ E2 = "E2 stateright explicit-state search over the real Histogram (mc/src/bin/c1
 
 P = {
  "C01": dict(engine=E1, technique="stateless DFS over all pivot sequences (pivot hook) x exhaustive enumeration of weak-order patterns, q grid, strategies, element types and layouts, against a sort-based reference model",
-   text="Every execution of the real quantile routines over: all weak-order patterns of lane length <= bound (complete for all inputs of that length by the comparison-only argument), two value tables per element type (spread / type extremes), a q grid that sits on, 1 and 2 ulps either side of every index boundary and .5 fraction, all five strategies, i8/u8/i64/u64/N64, all pivot sequences; plus n-D shapes x axes x all layouts with deviation-bounded pivots, plus lanes of 13..96 (250) elements under adversarial pivot policies (recursion depth n-1). Oracle: full sort + both readings of the position. Both build profiles.",
+   text="Every execution of the real quantile routines over: all weak-order patterns of lane length <= bound (complete for all inputs of that length by the comparison-only argument), two value tables per element type (spread / type extremes), a q grid that sits on, 1 and 2 ulps either side of every index boundary and .5 fraction, all five strategies, i8/u8/i64/u64/N64, all pivot sequences; plus n-D shapes x axes x all layouts with deviation-bounded pivots, plus lanes of 13..96 (250) elements under adversarial pivot policies (recursion depth n-1). Oracle: full sort + both readings of the position. Both build profiles. One lane of 2^24 + 2 elements.",
    note="Complete up to the stated lane length in 1-D; n-D part is exhaustive over layouts x a finite content family, pivots deviation-bounded. q values are a grid, not all of [0,1]. Trusted: the sort-based oracle, ndarray's slicing used to build layouts.", ref="4/C01"),
  "C02": dict(engine=E1, technique="stateless DFS over ALL pivot sequences of the real quickselect (pivot hook) for every weak-order pattern and index / index set up to a length bound; deviation-bounded search above it",
    text="All inputs (by the comparison-only argument) of length <= 7 (8 thorough) for single selection and <= 6 (7) for bulk selection, every index / every subset of indexes in three presentations, under every pivot sequence the generator could produce; value, post-selection ordering and key order are compared with a sort-based reference on every execution (a changed multiset or a modified cell outside the view is counted, not reported: that is C03). Above the bound: all sequences over 3 keys, 3 pivot policies, <= 1 (2) deviations; every length 13..96 (250) x 6 input families x index sets under always-first / always-last / alternating-ends / middle pivots (recursion depth n-1), single and bulk, also on reversed views. The empty array with the empty request; shared ArcArray / borrowing CowArray handles (all pivots; also in the checked build in the quick tier); call histories: every ordered pair of (array, request) combinations back to back on one thread, including rejected requests as the first call.",
@@ -26,16 +26,16 @@ P = {
    text="All float arrays over {NaN,-inf,-1,-0.0,0.0,1,+inf} of length 0..5 (6) in 1-D under several strides, all weak-order integer patterns, and NaN at every position of n-D arrays in every layout, the strict extremum at every position of 3-D/4-D shapes, long arrays up to 1100 (4100) elements: result must designate a true extremum, arg and value forms agree, EmptyInput iff no elements, UndefinedOrder iff a NaN is present. The integer patterns are also run as arrays of NotNone<i32>, the crate's own ordered wrapper.",
    note="Exhaustive over the alphabet and length bound, not over all floats (min/max only compare, so the alphabet covers every comparison outcome class).", ref="4/C05"),
  "C06": dict(engine=E1, technique="exhaustive enumeration of all arrays over small value/weight alphabets (cancelling signs, offsets, non-representable decimals) up to a length bound x shapes x axis x independent layouts of data and weights, against an exact rational-arithmetic oracle with a forward-error bound",
-   text="Every data/weight array over the stated alphabets up to length 5 (6), f64/f32/i32/i64, all layout pairs: result compared with the exact rational value (integers: exact equality incl. the type's own division, also for the axis forms; floats: |err| <= c*n*u*sum|terms|); a wide-magnitude alphabet 1e-300..1e300 for mean / harmonic / geometric mean. Axis forms on shapes up to 5-D; data and weights that are views of one buffer (different strides, transpose, overlapping, a lane of the matrix as axis weights). Narrow integers (i8 / u8): per-axis forms against the whole-array routine wherever the latter returns on every lane.",
+   text="Every data/weight array over the stated alphabets up to length 5 (6), f64/f32/i32/i64, all layout pairs: result compared with the exact rational value (integers: exact equality incl. the type's own division, also for the axis forms; floats: |err| <= c*n*u*sum|terms|); a wide-magnitude alphabet 1e-300..1e300 for mean / harmonic / geometric mean. Axis forms on shapes up to 5-D; data and weights that are views of one buffer (different strides, transpose, overlapping, a lane of the matrix as axis weights). Narrow integers (i8 / u8): per-axis forms against the whole-array routine wherever the latter returns on every lane. Stride-0 broadcast views of 2^24 + 1 elements.",
    note="Exhaustive over an alphabet, not over all floats; overflow/underflow regimes outside the alphabet. Bound constants are textbook forward-error bounds with margin >= 4 over the worst observed ratio (reported in evidence).", ref="4/C06"),
  "C07": dict(engine=E1, technique="exhaustive enumeration over data x weight x ddof x order x offset alphabets against exact rational arithmetic with forward-error bounds of the documented algorithms (corrected two-pass moments, West's weighted variance)",
-   text="All data arrays over the alphabet at offsets 0..1e8 up to length 5 (6), all weight vectors over {0,.25,1,3} with positive total, ddof {0,.5,1}, orders 0..8, a size sweep up to 1100 (4100) elements and extreme scales: central moments, weighted variance/std, skewness, kurtosis and axis forms compared with exact rational values. Extreme weight ratios (weights 1e-100..1e20 next to data 1e30 / 1e200; f32 analogue) against the exact value with the one-pass algorithm's bound, and one negative weight with positive running sums.",
+   text="All data arrays over the alphabet at offsets 0..1e8 up to length 5 (6), all weight vectors over {0,.25,1,3} with positive total, ddof {0,.5,1}, orders 0..8, a size sweep up to 1100 (4100) elements and extreme scales: central moments, weighted variance/std, skewness, kurtosis and axis forms compared with exact rational values. Extreme weight ratios (weights 1e-100..1e20 next to data 1e30 / 1e200; f32 analogue) against the exact value with the one-pass algorithm's bound, and one negative weight with positive running sums. Bulk central moments at every cut-off 0..4; whole-array weighted variance on n-D arrays.",
    note="Exhaustive over an alphabet; bounds as stated in DESIGN 4/C07; worst observed ratio reported in evidence.", ref="4/C07"),
  "C08": dict(engine=E1, technique="exhaustive enumeration of all small matrices over a value alphabet (x offsets, ddof, layouts) plus structured larger families, against exact rational covariance/correlation with forward-error bounds, and metamorphic affine/sign invariances",
    text="All (r,o) matrices up to 3x3 / 2x4 over {-1,0,.5,2} at offsets {0,1e6}, ddof in {0,1,.5,o-.25}, C/F/transposed/stepped/reversed layouts, f64 and f32, and structured families up to 8x64; Pearson invariance under rescaling by 2, .5x+1, 3x-10, 1e-9, 1e-13, 1e9 and sign flips.",
    note="Exhaustive over an alphabet for small sizes; structured (not exhaustive) for large sizes.", ref="4/C08"),
  "C09": dict(engine=E1, technique="exhaustive enumeration of all operand pairs over a 4-value alphabet up to length 4 x all pairs of layouts x ownership kinds, against a logical-index reference loop with exact (BigInt) arithmetic",
-   text="Every pair of arrays over the alphabet, every pairing of layouts for the two operands (1-D, 2-D complete; covering in 3-D/4-D), owned/view/view_mut/Arc/Cow operands, i32/i64/f64/BigInt: all ten measures compared with exact values; symmetry and identity laws; operands aliasing one buffer (different strides, transpose, overlapping windows). Infinite elements and overflowing squares (all pairs of length <= 3 over {0,1,+-BIG,+-inf}) against the IEEE value of the documented formulas. Every pair of arrays of shape (2,3), (3,2), (1,4), (2,1,3) over two values.",
+   text="Every pair of arrays over the alphabet, every pairing of layouts for the two operands (1-D, 2-D complete; covering in 3-D/4-D), owned/view/view_mut/Arc/Cow operands, i32/i64/f64/BigInt: all ten measures compared with exact values; symmetry and identity laws; operands aliasing one buffer (different strides, transpose, overlapping windows). Infinite elements and overflowing squares (all pairs of length <= 3 over {0,1,+-BIG,+-inf}) against the IEEE value of the documented formulas. Every pair of arrays of shape (2,3), (3,2), (1,4), (2,1,3) over two values. A second peak value per type that f32 cannot hold; stride-0 broadcast operands of 65535..70000 and 2^24 + 1 elements.",
    note="Exhaustive over an alphabet and the layout generator's space.", ref="4/C09"),
  "C10": dict(engine=E1, technique="exhaustive enumeration of p, q vectors over an alphabet incl. zeros and NaN x independent layouts, against exactly summed per-term f64 values; algebraic identities checked on the same cases",
    text="All p, q of length 1..5 over {0,.1,.25,.5,1,2,NaN} and all normalised vectors over eighths up to length 4, all layout pairs in 1-D..3-D, a size sweep up to 1100 (4100), tiny entries, aliasing operands, f64/f32. The alphabet also holds -0.0 and a subnormal (1e-310 / 1e-40); the KL quotient of the reference is formed in the element type.",
@@ -47,7 +47,7 @@ P = {
    text="All arrays of length 1..6 over integer and N64 alphabets, every n <= 2000 (10^4) for Sqrt/Rice/Sturges and n <= 600 + sparse for FD/Auto over a menu of (min,max) pairs incl. adjacent floats and huge offsets; integer data in the upper part of the type range (u8, i16, i32, u32); GridBuilder + histogram totals in 1..3 columns. Pairs whose range added back to the minimum overshoots the maximum; integer data with an IQR of one unit; the last bin must start at or below the maximum (tolerance-free); a strategy accepting data with a non-positive width is a violation.",
    note="Exhaustive over the alphabet / parameter menu; a stalled call is reported by a watchdog after 60 s.", ref="4/C12"),
  "C13": dict(engine=E1, technique="exhaustive enumeration of every edge collection up to 5 elements (complete by the comparison-only argument) x all probe classes, against a linear-scan reference; all Grid index tuples",
-   text="Every sequence of length 0..6 (7) over 6 values, via From<Vec> and From<Array1> (fresh, narrowed, stepped, reversed owned arrays), probes below/on/between/above every edge, i32 and N64; Bins and Grid accessors cross-checked with points presented as owned arrays and reversed / stepped views. NotNone<i32> (the crate's own ordered wrapper) as element type, judged through a key projection.",
+   text="Every sequence of length 0..6 (7) over 6 values, via From<Vec> and From<Array1> (fresh, narrowed, stepped, reversed owned arrays), probes below/on/between/above every edge, i32 and N64; Bins and Grid accessors cross-checked with points presented as owned arrays and reversed / stepped views. NotNone<i32> (the crate's own ordered wrapper) as element type, judged through a key projection. Grids assembled from pushed Vecs (spare capacity).",
    note="Complete up to the size bound.", ref="4/C13"),
  "C14": dict(engine=E1, technique="exhaustive enumeration of missing-value masks x weak-order patterns x axes x layouts x pivot sequences; oracle = filter then plain reference",
    text="Every mask x every pattern on the remaining elements up to length 5 in 1-D (all pivots), n-D shapes x every axis x all layouts; f64, f32, Option<i32>; all skip-NaN entry points. After one pivot sequence of the first call per case the same call and a per-axis fold are repeated on the array as the first call left it. The per-axis skip-NaN fold is compared as a sequence (index order), not as a multiset.",
@@ -62,10 +62,10 @@ P = {
    text="Every Result-returning public routine of the anchored files x first-input shapes x second-input relation x q lists x axes x element types x layouts: variant and payload must match the decision function; never a panic; zero total weight on non-empty inputs is not an error.",
    note="Full table over the stated shape menu.", ref="4/C17"),
  "C18": dict(engine=E1, technique="exhaustive enumeration of request lists (all lists of length 0..4 over a q pool, one of 32) x patterns x layouts x pivot sequences; every bulk execution compared with every single-item execution",
-   text="Bulk quantiles vs single quantiles, bulk selection vs single selection, central_moments vs central_moment bit for bit, axis forms of the weighted family vs whole-array routine per lane; 2-3 long lanes per bulk call; long lanes under adversarial pivot policies. Axis forms on shapes up to 5-D, ddof {0, .5, 1}, equal non-unit weights. For n <= 4 every request list of n and n+1 positions with repeats.",
+   text="Bulk quantiles vs single quantiles, bulk selection vs single selection, central_moments vs central_moment bit for bit, axis forms of the weighted family vs whole-array routine per lane; 2-3 long lanes per bulk call; long lanes under adversarial pivot policies. Axis forms on shapes up to 5-D, ddof {0, .5, 1}, equal non-unit weights. For n <= 4 every request list of n and n+1 positions with repeats. Per-axis forms must be identical (bit for bit) to the whole-array routine on the lane; strided 2-D inputs for the moments.",
    note="Complete over the request-list space stated; pivots all for N<=4, deviation-bounded above.", ref="4/C18"),
  "C19": dict(engine=E1, technique="exhaustive enumeration of patterns x all ordered q pairs of the grid x strategies x pivot sequences; oracle-free order laws (monotonicity, bounds, strategy ordering, permutation and relabelling invariance)",
-   text="Every multiset of ranks up to size 5 (6) x every arrangement, i8/i64/N64 tables (spread, extremes, 2x+1, beyond 2^53), all q pairs from the boundary grid, both profiles. Short bulk requests: every list of one or two (half of three) q values from seven, in any order, for n = 2..9. Fractional NotNone<N64> lanes through quantile_mut and float lanes (ties in adjacent pairs, NaNs interleaved) through quantile_axis_skipnan_mut.",
+   text="Every multiset of ranks up to size 5 (6) x every arrangement, i8/i64/N64 tables (spread, extremes, 2x+1, beyond 2^53), all q pairs from the boundary grid, both profiles. Short bulk requests: every list of one or two (half of three) q values from seven, in any order, for n = 2..9. Fractional NotNone<N64> lanes through quantile_mut and float lanes (ties in adjacent pairs, NaNs interleaved) through quantile_axis_skipnan_mut. One lane of 2^24 + 2 elements; Option<i32> lanes with neighbours more than 2^24 apart through the skip-NaN entry point.",
    note="Complete up to the length bound over the q grid.", ref="4/C19"),
  "C20": dict(engine=E1, technique="exhaustive enumeration of every representation (all layouts x ownership kinds x static/dynamic dimensionality) of canonical arrays for every public routine; differential against the canonical result / exact oracle",
    text="For each routine and each canonical array in 1-D..4-D: every layout of the generator, owned/view/view_mut/Arc/Cow, IxN/IxDyn; second operands and weights in a different (when possible contiguous) memory order. Fallible calls (empty axes, invalid q, empty request lists) must have the same outcome for dynamic / static / shared / column-major / copy-on-write representations; binary routines on two views of one buffer must equal the same call on separate copies. Request lists handed over as reversed views. All five bin-building strategies on every 1-D representation; GridBuilder with FreedmanDiaconis / Auto on every 2-D one.",
@@ -107,7 +107,7 @@ def main():
             {"name": "E2", "path": "mc/src/bin/c11.rs", "serves_properties": ["C11"], "kind_free_text": "stateright 0.31 breadth-first explicit-state search; every transition executes the real Histogram::add_observation"},
         ],
         "checks": checks,
-        "notes": "All checks: exit 0 = held on everything explored, exit 1 + VIOLATION line = violation, exit 2 = machinery failure. Every check runs its harness in two build profiles (release; release + debug assertions + overflow checks), except C08 whose quick tier runs release only and C02 whose quick tier runs the checked build on two sub-harnesses. known_findings.json lists recorded defects (open: K1 for C01/C19, K2 for C17) and repaired ones (fixed: D1-D7). seeded/ holds 382 property-breaking changes with demonstrations; seeded/RESULTS.md records which checks detect which. COVERAGE.md lists every sub-harness with its bounds and measured counts.",
+        "notes": "All checks: exit 0 = held on everything explored, exit 1 + VIOLATION line = violation, exit 2 = machinery failure. Every check runs its harness in two build profiles (release; release + debug assertions + overflow checks), except C08 whose quick tier runs release only and C02 whose quick tier runs the checked build on two sub-harnesses. known_findings.json lists recorded defects (open: K1 for C01/C19, K2 for C17) and repaired ones (fixed: D1-D7). seeded/ holds 429 property-breaking changes with demonstrations; seeded/RESULTS.md records which checks detect which. COVERAGE.md lists every sub-harness with its bounds and measured counts.",
         "not_applicable": na,
     }
     with open(os.path.join(VERIF, "MANIFEST.json"), "w") as f:
